@@ -1,11 +1,11 @@
 import Qats.Model.Dist
 import Qats.Lemmas.RealOpsSimp
-import Qats.Lemmas.DistOps
+import Qats.Lemmas.WbOps
 /-!
 Bridging lemmas for the Gumbel-from-Weibull formulas (C17): the generated `Qats.Gen.w2g_*`, `wfw_*` at `α := ℝ` in
 ordinary Mathlib notation.  These are the *only* lemmas whose proofs look at the syntactic shape of these generated
-formulas.  Kept apart from `DistOps.lean` so that C15 does not depend on them; `DistOps.lean` is imported for the
-`dist_norm` tactic and because the C17 theorems relate these formulas to `wb_invcdf` / `wb_pdf`.
+formulas.  Kept apart from `DistOps.lean` so that C15 does not depend on them; `WbOps.lean` is imported because
+the C17 theorems relate these formulas to `wb_invcdf` / `wb_pdf`.
 -/
 namespace Qats.Dist
 open Qats Qats.Gen
